@@ -148,7 +148,7 @@ EXPORT errno_t _wcsstr_s_chk(wchar_t *restrict dest, rsize_t dmax,
             len--;
             dlen--;
 
-            if (src[i] == '\0' || !len) {
+            if (!len || src[i] == '\0') {
                 *substringp = dest;
                 return RCNEGATE(EOK);
             }
